@@ -157,8 +157,9 @@ def raising(tree, **params):
     removal = []
     for subtree in trees.preorder(tree):
         if subtree != tree:
-            # nodes created after boyd_split (e.g. by binarize) carry no marks
-            if subtree.data.get('split'):
+            # nodes created after boyd_split (e.g. by binarize) carry no marks;
+            # a block which has been collapsed into its only token is a token
+            if subtree.data.get('split') and trees.has_children(subtree):
                 if not subtree.data.get('head_block'):
                     removal.append(subtree)
     for subtree in removal:
